@@ -58,7 +58,7 @@ package lungo
 //@ func (*Transaction).Clean
 //@   tags C08 C02 C03
 //@   opt loopframe = on
-//@   locals clone oplog dropped i
+//@   locals clone oplog now minTimestamp maxTimestamp minIndex maxIndex dropped i doc ts afterMin beyondMax
 //@   requires t != nil && t.catalog != nil && t.catalog.Namespaces != nil && has(t.catalog.Namespaces, Oplog) && t.catalog.Namespaces[Oplog] != nil
 //@   modifies t.catalog, t.dirty, ghost.tainted, ghost.cov, ghost.tree
 //@   ensures [C08 name=prefix-only] t.catalog != nil && t.catalog.Namespaces != nil && has(t.catalog.Namespaces, Oplog) && any(d, Int, 0 <= d && len(oplogList(t)) == old(len(oplogList(t))) - d && forall(k, 0, len(oplogList(t)), oplogList(t)[k] == old(oplogList(t)[k + d])))
@@ -267,7 +267,7 @@ package lungo
 //@   tags C19 C02 C03
 //@   opt loopframe = on
 //@   opt overflow = checked
-//@   locals clone oplog deletions ttlIndexes
+//@   locals clone oplog deletions handle namespace ttlIndexes index conditions field expiry res err
 //@   requires t != nil && cleanCatalog(t.catalog) && has(t.catalog.Namespaces, Oplog) && t.catalog.Namespaces[Oplog] != nil
 //@   requires all(h, "(Array Int Str)", imp(has(t.catalog.Namespaces, h), t.catalog.Namespaces[h] != nil))
 //@   modifies t.catalog, t.dirty, ghost.tainted, ghost.cov, ghost.tree, ghost.appended, ghost.removed
@@ -299,7 +299,7 @@ package lungo
 //@ func (*File).BuildCatalog
 //@   tags C15 C06
 //@   opt loopframe = on
-//@   locals catalog namespace ns handle index name
+//@   locals catalog name ns segments handle namespace idx index err ok
 //@   requires f != nil
 //@   modifies ghost.cov, ghost.tree, ghost.tainted
 //@   ensures [C15,C06 name=rebuilt-coherent] imp(err == nil, result0 != nil && fresh(result0) && result0.Namespaces != nil && all(h, "(Array Int Str)", imp(has(result0.Namespaces, h), fresh(result0.Namespaces[h]) && coherentColl(result0.Namespaces[h]))))
@@ -382,7 +382,7 @@ package lungo
 //@ func BuildFile
 //@   tags C05 C06
 //@   opt loopframe = on
-//@   locals file indexes
+//@   locals file handle namespace indexes name index config
 //@   requires catalog != nil && storable(catalog)
 //@   modifies nothing
 //@   ensures [C05,C06 name=fresh-file] result != nil && fresh(result)
@@ -422,7 +422,7 @@ package lungo
 //@   tags C02 C03 C08 C01
 //@   opt loopframe = on
 //@   opt overflow = checked
-//@   locals clone oplog dropped ns err
+//@   locals err clone oplog dropped ns
 //@   requires t != nil && cleanCatalog(t.catalog) && has(t.catalog.Namespaces, Oplog) && t.catalog.Namespaces[Oplog] != nil
 //@   modifies t.catalog, t.dirty, ghost.tainted, ghost.cov, ghost.tree, ghost.appended
 //@   ensures [C02 name=error-leaves-state] imp(result != nil, t.catalog == old(t.catalog) && t.dirty == old(t.dirty))
@@ -463,7 +463,7 @@ package lungo
 //@ func (*Transaction).DropIndexByKey
 //@   tags C02 C03 C15
 //@   opt loopframe = on
-//@   locals name n index
+//@   locals err name n index clone namespace dropped
 //@   requires t != nil && cleanCatalog(t.catalog) && key != nil
 //@   modifies t.catalog, t.dirty, ghost.tainted, ghost.cov, ghost.tree
 //@   ensures [C02 name=error-leaves-state] imp(result != nil, t.catalog == old(t.catalog) && t.dirty == old(t.dirty))
